@@ -129,13 +129,6 @@ theorem existsTx_index {c : Ctx} {s : Store} {chain : List Block} (hI : Inv c s 
           exact ⟨hlt, hidt⟩
         · cases h
 
-/-- what `existsUnminedTx` reads of `w.txStore.ExistUnminedTx(hash)`: [prevTx ≠ nil, error id, len(prevTx.TxOut)],
-    from the pending table of the store -/
-def existUnminedAnswer (r : Option Tx) : List Nat :=
-  match r with
-  | some t => [1, 0, t.outs.length]
-  | none => [0, E.notFound, 0]
-
 /-- the oracle answers `w.txStore.ExistsTx` by running the model function on SOME store that satisfies the
     ledger invariant for some valid chain, for the outpoint index the skeleton holds in `vout`; and
     `w.txStore.ExistUnminedTx` by the pending table of some store -/
@@ -143,7 +136,7 @@ structure LedgerBacked (O : Oracle) : Prop where
   existsTx : ∀ σ, ∃ (c : Ctx) (s : Store) (chain : List Block) (cur : Wid) (tx : TxId),
     Inv c s chain ∧ ChainValid c.own chain ∧ TxIdsAgree chain c.node ∧
     O "w.txStore.ExistsTx" σ = existsTxAnswer E.notFound (MW.Model.ApiLedger.existsTx s c.node cur tx (σ (V "vout")))
-  unmined : ∀ σ, ∃ (s : Store) (tx : TxId), O "w.txStore.ExistUnminedTx" σ = existUnminedAnswer (AMap.get s.pending tx)
+  unmined : ∀ σ, ∃ (s : Store) (tx : TxId), O "w.txStore.ExistUnminedTx" σ = existUnminedAnswer E.notFound (AMap.get s.pending tx)
 
 def existUnminedNode : CallNode :=
   ("w.txStore.ExistUnminedTx", [V "prevTx", V "perr", V "prevTx.TxOut"], onOk "perr" [.nz "prevTx"])
